@@ -2,6 +2,7 @@ package core
 
 import (
 	"encoding/hex"
+	"strings"
 	"testing"
 
 	"github.com/koron-go/z80/verifharness/eng"
@@ -103,9 +104,13 @@ func TestC14Soup(t *testing.T) {
 			k := rapid.IntRange(0, len(c.Code)).Draw(t, "haltAt")
 			c.Code = append(append([]int{}, c.Code[:k]...), 0x76)
 		}
-		msg, steps, trunc, classes := soupLockstep(rig, &c, map[string]bool{eng.KRefresh: true})
+		if rapid.IntRange(0, 2).Draw(t, "intr?") == 0 {
+			// interrupt acknowledge: bit 7 of R and I stay, a mode-0 instruction counts its own fetches
+			genSoupIntr(t, &c, 3)
+		}
+		msg, steps, trunc, classes := soupLockstep(rig, &c, map[string]bool{eng.KRefresh: true, eng.KIntr: true})
 		col.Eval(1)
-		if msg != "" {
+		if msg != "" && !strings.Contains(msg, "intr:") {
 			violation(t, "C14", "soup", c, "fetch-count rule, every Step", msg)
 		}
 		col.LabelN("soup-steps", int64(steps))
